@@ -21,7 +21,7 @@ CONSTANTS NodeSeq,        \* sequence of node names, e.g. <<"n1","n2","n3">>
           Strat,          \* spec.strategy (record, same fields as the projection)
           InitFits,       \* sequence (aligned with NodeSeq) of the sets of templates each node fits initially
           EnvBudget,      \* number of environment disturbances (unready, fail, node churn, restarts, duplicates)
-          EnvKinds,       \* which kinds of disturbance the configuration allows: subset of {"unready","fail","restart","dup","node"}
+          EnvKinds,       \* kinds of disturbance the configuration allows: subset of {"unready","fail","restart","lost","dup","node","narrow"}
           EditBudget,     \* number of template edits by the user
           AnnBudget,      \* number of annotation toggles by the user
           MaxPerNode,     \* bound on pods per node (creation is disabled beyond it)
@@ -349,6 +349,13 @@ KRestart(n, k) ==
     /\ UNCHANGED <<nd, rv, ed>>
     /\ ev' = EnvEventL("KRestart", "KRestart:" \o n \o ":" \o ToString(k), AbsOf(nd, pd', rv, ed))
 
+\* the node is lost: the pod's phase becomes Unknown (the controller neither counts nor deletes such a pod)
+KLost(n, k) ==
+    /\ Spend /\ k \in DOMAIN pd[n] /\ pd[n][k].phase # "Unknown"
+    /\ SetPod(n, k, [pd[n][k] EXCEPT !.ready = FALSE, !.phase = "Unknown"])
+    /\ UNCHANGED <<nd, rv, ed>>
+    /\ ev' = EnvEventL("KLost", "KLost:" \o n \o ":" \o ToString(k), AbsOf(nd, pd', rv, ed))
+
 DupPod(n) ==
     /\ Spend /\ Len(pd[n]) >= 1 /\ Len(pd[n]) < MaxPerNode
     /\ pd' = [pd EXCEPT ![n] = Append(@, [NewPod(@[1].hash, @[1].rs) EXCEPT !.ready = FALSE])]
@@ -418,8 +425,10 @@ Kubelet == \E n \in NodeIds : \E k \in 1..MaxPerNode : KReady(n, k) \/ KFinish(n
 Disturb == \E n \in NodeIds : \/ \E k \in 1..MaxPerNode : \/ ("unready" \in EnvKinds /\ KUnready(n, k))
                                                           \/ ("fail" \in EnvKinds /\ KFail(n, k))
                                                           \/ ("restart" \in EnvKinds /\ KRestart(n, k))
+                                                          \/ ("lost" \in EnvKinds /\ KLost(n, k))
                               \/ ("dup" \in EnvKinds /\ DupPod(n))
                               \/ ("node" \in EnvKinds /\ (NodeRemove(n) \/ NodeAdd(n)))
+                              \/ ("narrow" \in EnvKinds /\ \E F \in SUBSET Tmpls : NodeSetFits(n, F))
 Narrow  == \E n \in NodeIds : \E F \in SUBSET Tmpls : NodeSetFits(n, F)
 User    == (\E t \in Tmpls : SetTemplate(t)) \/ Toggle("ruPaused") \/ Toggle("frozen")
 CanaryUser == Validate \/ CmdPause \/ CmdUnpause
